@@ -165,6 +165,18 @@ EvalArgs(as, i, env, st, cx, acc) ==
 
 Alloc(st, elems) == [st |-> Append(st, elems), v |-> Ref(Len(st) + 1)]
 
+\* fp.empty(d1, ..., dn): every row at every level is a cell of its own; the innermost elements hold no value yet
+Uninit == [k |-> "uninit"]
+RECURSIVE AllocEmpty(_, _), AllocRows(_, _, _, _)
+AllocEmpty(st, dims) ==
+    IF Len(dims) = 1 THEN Alloc(st, [i \in 1..dims[1] |-> Uninit])
+    ELSE LET rows == AllocRows(st, Tail(dims), dims[1], <<>>) IN Alloc(rows.st, rows.v)
+AllocRows(st, dims, n, acc) ==
+    IF n = 0 THEN [st |-> st, v |-> acc]
+    ELSE LET a == AllocEmpty(st, dims) IN AllocRows(a.st, dims, n - 1, Append(acc, a.v))
+RECURSIVE Product(_)
+Product(s) == IF Len(s) = 0 THEN 1 ELSE Head(s) * Product(Tail(s))
+
 RangeSeq(lo, hi, step) ==        \* as Python's range
     IF step > 0 THEN (IF hi <= lo THEN <<>> ELSE [i \in 1..((hi - lo + step - 1) \div step) |-> OfInt(lo + (i - 1) * step)])
     ELSE (IF hi >= lo THEN <<>> ELSE [i \in 1..((lo - hi + (-step) - 1) \div (-step)) |-> OfInt(lo + (i - 1) * step)])
@@ -323,6 +335,15 @@ Eval(e, env, st, cx) ==
                     IN  IF sp = 0 THEN Er("ValueError", r.st)
                         ELSE IF hi - lo > 64 \/ lo - hi > 64 THEN Er("OutOfDomain", r.st)
                         ELSE LET al == Alloc(r.st, RangeSeq(lo, hi, sp)) IN Ok(al.v, al.st)
+      [] e.k = "Empty" ->
+           LET r == EvalArgs(e.a, 1, env, st, cx, <<>>)
+           IN  IF r.err # "" THEN r
+               ELSE IF Len(r.v) = 0 THEN Er("ValueError", r.st)
+               ELSE IF \E i \in 1..Len(r.v) : ~IsNum(r.v[i]) THEN Er("TypeError", r.st)
+               ELSE IF \E i \in 1..Len(r.v) : ~IsIntV(r.v[i]) \/ IntOf(r.v[i]) < 0 THEN Er("ValueError", r.st)
+               ELSE LET dims == [i \in 1..Len(r.v) |-> IntOf(r.v[i])]
+                    IN  IF (\E i \in 1..Len(dims) : dims[i] > 8) \/ Product(dims) > 64 THEN Er("OutOfDomain", r.st)
+                        ELSE LET al == AllocEmpty(r.st, dims) IN Ok(al.v, al.st)
       [] e.k = "Zip" ->
            LET r == EvalArgs(e.a, 1, env, st, cx, <<>>)
            IN  IF r.err # "" THEN r
